@@ -198,7 +198,16 @@ def malform(rng, c):
     for k in ("cells", "rings", "layout"):
         m.pop(k, None)
     kind = rng.choice(["nc+", "nc-", "pnc+", "pnc-", "nc0", "pnc0", "ring-no-pnc", "pnc-extra", "pnc-short",
-                       "nc-shift", "no-nc-pnc"])
+                       "nc-shift", "no-nc-pnc", "ring-foreign-dim"])
+    if kind == "ring-foreign-dim":
+        if c["pnc"] is None:
+            kind = "nc+" if c["nc"] else "skip"
+        else:
+            m["gtype"] = "polygon"
+            m["ring"] = [0] * (len(c["pnc"]) + rng.choice([0, 1, 2]))
+            m["ring_dim"] = "foreign"
+            m["mkind"] = kind
+            return m
     nc = list(c["nc"]) if c["nc"] is not None else None
     pnc = list(c["pnc"]) if c["pnc"] is not None else None
     ring = list(c["ring"]) if c["ring"] is not None else None
@@ -354,42 +363,55 @@ def oarr_ok(o):
             and all(x is None or isinstance(x, int) for x in o["flat"]))
 
 
+def obs_literal(coords, nvars):
+    """Gallina literal (option (list oarr * option oarr * list nat)) of what one field presents."""
+    names = ["x", "y", "z"][:nvars]
+    if not coords:
+        return "None"
+    by = {coord_key(o): o for o in coords}
+    if sorted(by) != sorted(names) or len(coords) != len(names):
+        return None
+    os_ = [by[n] for n in names]
+    if not all(oarr_ok(o["bounds"]) for o in os_):
+        return None
+    rings = [o["ring"] for o in os_]
+    if any(json.dumps(x) != json.dumps(rings[0]) for x in rings):
+        return None
+    shapes = [o["shape"] for o in os_]
+    if any(s != shapes[0] for s in shapes) or not isinstance(shapes[0], list):
+        return None
+    if rings[0] is not None and not oarr_ok(rings[0]):
+        return None
+    ring = "None" if rings[0] is None else f"(Some {g_oarr(rings[0])})"
+    return f"(Some ({glist([o['bounds'] for o in os_], g_oarr)}, {ring}, {g_nats(shapes[0])}))"
+
+
 def read_literal(c, r):
     """Gallina literal of an R case with what cfdm presented; None if unprintable."""
     if "read_exc" in r or "driver_exc" in r or "obs" not in r:
         return None
-    coords = r["obs"]["coords"]
-    names = ["x", "y", "z"][:c["nvars"]]
-    if not coords:
-        obs = "None"
-    else:
-        by = {o["bncvar"]: o for o in coords}
-        if sorted(by) != sorted(names) or len(coords) != len(names):
-            return None
-        os_ = [by[n] for n in names]
-        if not all(oarr_ok(o["bounds"]) for o in os_):
-            return None
-        rings = [o["ring"] for o in os_]
-        if any(json.dumps(x) != json.dumps(rings[0]) for x in rings):
-            return None
-        shapes = [o["shape"] for o in os_]
-        if any(s != shapes[0] for s in shapes) or not isinstance(shapes[0], list):
-            return None
-        if rings[0] is not None and not oarr_ok(rings[0]):
-            return None
-        ring = "None" if rings[0] is None else f"(Some {g_oarr(rings[0])})"
-        obs = f"(Some ({glist([o['bounds'] for o in os_], g_oarr)}, {ring}, {g_nats(shapes[0])}))"
+    obs = obs_literal(r["obs"]["coords"], c["nvars"])
+    if obs is None:
+        return None
     # the type annotation keeps a shard of few cases (all None in some position) typable
     return (f"(({gopt(c['nc'], g_nats)}, {gopt(c['pnc'], g_nats)}, {gopt(c['ring'], g_zs)}, "
             f"{gnat(c['nnodes'])}, {glist(c['data'], g_zs)}, {obs}) : read_case)")
 
 
-def raw_tuple(raw):
-    """(nc, pnc, ring, [nodes...]) from the netCDF4-python view of a written file, or an error string."""
+def pick_container(raw, gname=None):
     cs = raw.get("containers", [])
+    if gname is not None:
+        cs = [g for g in cs if g.get("name") == gname]
     if len(cs) != 1 or cs[0].get("missing"):
+        return None
+    return cs[0]
+
+
+def raw_tuple(raw, gname=None):
+    """(nc, pnc, ring, [nodes...]) from the netCDF4-python view of a written file, or an error string."""
+    g = pick_container(raw, gname)
+    if g is None:
         return "no single geometry container"
-    g = cs[0]
     for k in ("nc", "pnc", "ring"):
         if g[k] is not None and "missing" in g[k]:
             return f"{k} variable named by the container is missing"
@@ -426,13 +448,16 @@ def write_literal(c, r):
 # ---------------------------------------------------------------------------
 # property oracles
 # ---------------------------------------------------------------------------
-def raw_dims_consistent(raw):
+def raw_dims_consistent(raw, gname=None, datavar_dims=None):
     """Dimension-level consistency of the written container (netCDF4 view)."""
-    g = raw["containers"][0]
+    g = pick_container(raw, gname)
     probs = []
+    dv = datavar_dims if datavar_dims is not None else g["datavar_dims"]
     if g["nc"] is not None:
-        if g["nc"]["dims"] != g["datavar_dims"][:1] and g["nc"]["dims"][0] not in g["datavar_dims"]:
+        if g["nc"]["dims"][0] not in dv:
             probs.append("node_count is not on a dimension of the data variable")
+    elif not any(n["dims"][0] in dv for n in g["nodes"] if isinstance(n, dict) and n.get("dims")):
+        probs.append("no node_count, and the node dimension is not a dimension of the data variable")
     nd = {tuple(n["dims"]) for n in g["nodes"]}
     if len(nd) != 1:
         probs.append("node coordinate variables on different dimensions")
@@ -446,16 +471,23 @@ def raw_dims_consistent(raw):
     return probs
 
 
-def presented_ok(chk, c, obs, where, sigprefix):
+def coord_key(o):
+    """x / y / z from the axis property of the node coordinates, else their netCDF name"""
+    ax = o.get("axis")
+    return {"X": "x", "Y": "y", "Z": "z"}.get(ax, o["bncvar"])
+
+
+def presented_ok(chk, c, obs, where, sigprefix, inp=None):
     """The cells presented by cfdm equal the generated cells padded with missing data."""
     names = ["x", "y", "z"][:len(c["cells"])]
-    by = {o["bncvar"]: o for o in obs["coords"]}
+    by = {coord_key(o): o for o in obs["coords"]}
     ok = True
+    inp = strip(inp if inp is not None else c)
 
     def bad(sig, what, exp, got):
         nonlocal ok
         ok = False
-        chk.fail("property", sig, f"{where}: {what}", {"input": strip(c), "expected": exp, "observed": got})
+        chk.fail("property", sig, f"{where}: {what}", {"input": inp, "expected": exp, "observed": got})
 
     if sorted(by) != sorted(names):
         bad(sigprefix + "-no-geometry", f"node coordinate variables {names} presented as {sorted(by)}", names, sorted(by))
@@ -488,17 +520,19 @@ def presented_ok(chk, c, obs, where, sigprefix):
     return ok
 
 
-def raw_ok(chk, c, raw, where, sigprefix):
+def raw_ok(chk, c, raw, where, sigprefix, gname=None, datavar_dims=None, inp=None):
     """The written raw variables are mutually consistent and decode (independently) to the cells."""
-    def bad(sig, what, exp, got):
-        chk.fail("property", sig, f"{where}: {what}", {"input": strip(c), "expected": exp, "observed": got})
+    inp = strip(inp if inp is not None else c)
 
-    t = raw_tuple(raw)
+    def bad(sig, what, exp, got):
+        chk.fail("property", sig, f"{where}: {what}", {"input": inp, "expected": exp, "observed": got})
+
+    t = raw_tuple(raw, gname)
     if isinstance(t, str):
         bad(sigprefix + "-container", t, None, raw)
         return False
     nc, pnc, ring, nodes = t
-    probs = raw_dims_consistent(raw)
+    probs = raw_dims_consistent(raw, gname, datavar_dims)
     if probs:
         bad(sigprefix + "-inconsistent", "; ".join(probs), None, {"nc": nc, "pnc": pnc, "ring": ring})
         return False
@@ -516,8 +550,8 @@ def raw_ok(chk, c, raw, where, sigprefix):
         if (rings or None) != (c.get("rings") or None):
             bad(sigprefix + "-rings-differ", "an independent decoder does not recover the ring flags", c.get("rings"), rings)
             return False
-        if raw["containers"][0]["gtype"] != c["gtype"]:
-            bad(sigprefix + "-type-wrong", "geometry_type attribute", c["gtype"], raw["containers"][0]["gtype"])
+        if pick_container(raw, gname)["gtype"] != c["gtype"]:
+            bad(sigprefix + "-type-wrong", "geometry_type attribute", c["gtype"], pick_container(raw, gname)["gtype"])
             return False
     return True
 
@@ -526,7 +560,312 @@ def strip(c):
     return {k: v for k, v in c.items() if k not in ("cells",)}
 
 
+# ---------------------------------------------------------------------------
+# second pass: several data variables / containers per dataset; several fields per write
+# ---------------------------------------------------------------------------
+def repartition(rng, layout, mode):
+    """Another layout with the same number of cells and the same total number of nodes (so that the
+    flattened node values are identical) but a different division into cells / parts."""
+    ncells = len(layout)
+    total = sum(sum(c) for c in layout)
+    for _ in range(30):
+        if mode == "cells" and ncells > 1 and total > ncells:
+            # other node counts per cell, same parts-per-cell where possible
+            cuts = sorted(rng.sample(range(1, total), ncells - 1))
+            sizes = [b - a for a, b in zip([0] + cuts, cuts + [total])]
+            new = []
+            for n, old in zip(sizes, layout):
+                k = min(len(old), n)
+                cs = sorted(rng.sample(range(1, n), k - 1)) if k > 1 else []
+                new.append([b - a for a, b in zip([0] + cs, cs + [n])])
+        else:
+            # same node count per cell, parts split differently
+            new = []
+            for old in layout:
+                n = sum(old)
+                k = rng.randint(1, min(n, 3))
+                cs = sorted(rng.sample(range(1, n), k - 1)) if k > 1 else []
+                new.append([b - a for a, b in zip([0] + cs, cs + [n])])
+        if new != layout:
+            return new
+    return None
+
+
+def cont_from_layout(rng, layout, gtype, with_nc, with_pnc, with_ring, nvars, ncoords, voff):
+    cells = [values_for(layout, k + voff) for k in range(nvars)]
+    rings = None
+    if with_ring:
+        rings = [[0] + [rng.choice([0, 1, 1]) for _ in c[1:]] for c in layout]
+    return {"gtype": gtype, "nc": [sum(c) for c in layout] if with_nc else None,
+            "pnc": [n for c in layout for n in c] if with_pnc else None,
+            "ring": [x for r in rings for x in r] if rings is not None else None,
+            "nvars": nvars, "nnodes": sum(sum(c) for c in layout), "data": [flat_nodes(c) for c in cells],
+            "coords": ncoords, "cells": cells, "rings": rings, "layout": layout}
+
+
+def rand_cont(rng, layout, voff, gtype=None):
+    gtype = gtype or rng.choice(["polygon", "line", "line", "point"])
+    multi = any(len(c) > 1 for c in layout)
+    if gtype == "point" and multi:
+        gtype = "line"
+    single_nodes = all(c == [1] for c in layout)
+    with_nc = not (single_nodes and rng.random() < 0.5)
+    with_pnc = multi or (gtype != "point" and with_nc and rng.random() < 0.5)
+    with_ring = gtype == "polygon" and with_pnc and rng.random() < 0.6
+    nvars = rng.choice([1, 1, 2])
+    return cont_from_layout(rng, layout, gtype, with_nc, with_pnc, with_ring, nvars,
+                            rng.choice([0, 0, 0, 1, nvars]), voff)
+
+
+def rand_M(rng, thorough, fam="M-random"):
+    ncells = rng.choice([1, 2, 2, 3, 3, 4])
+    maxparts = rng.choice([1, 2, 3])
+    lay0 = gen_cells(rng, ncells, maxparts, rng.choice([1, 2, 3, 4]))
+    conts = [rand_cont(rng, lay0, 0)]
+    two = rng.random() < 0.45
+    if two:
+        mode = rng.choice(["cells", "parts", "same", "independent"])
+        lay1 = None
+        if mode in ("cells", "parts"):
+            lay1 = repartition(rng, lay0, mode)
+        elif mode == "same":
+            lay1 = [list(c) for c in lay0]
+        if lay1 is None:
+            lay1 = gen_cells(rng, rng.choice([1, 2, 3, 4]), rng.choice([1, 2, 3]), rng.choice([1, 2, 3, 4]))
+        conts.append(rand_cont(rng, lay1, 3, conts[0]["gtype"] if rng.random() < 0.5 else None))
+    # netCDF dimensions: containers with equal sizes may share them
+    a = conts[0]
+    a.update({"idim": 0, "ndim": 0, "pdim": 0})
+    if two:
+        b = conts[1]
+        b["idim"] = 0 if (a["nc"] is not None and b["nc"] is not None and len(a["nc"]) == len(b["nc"])
+                          and rng.random() < 0.6) else 1
+        b["ndim"] = 0 if (a["nc"] is not None and b["nc"] is not None and a["nnodes"] == b["nnodes"]
+                          and rng.random() < 0.7) else 1
+        b["pdim"] = 0 if (a["pnc"] is not None and b["pnc"] is not None and len(a["pnc"]) == len(b["pnc"])
+                          and rng.random() < 0.7) else 1
+    nv = rng.choice([2, 2, 3])
+    dvs = [{"container": 0}]
+    for i in range(1, nv):
+        dvs.append({"container": rng.choice([0, 0, 1]) if two else 0})
+    if two and not any(d["container"] == 1 for d in dvs):
+        dvs[-1]["container"] = 1
+    rng.shuffle(dvs)
+    if two and conts[0]["nc"] is not None and conts[1]["nc"] is not None and conts[0]["idim"] == conts[1]["idim"]:
+        for d in dvs:
+            other = 1 - d["container"]
+            if conts[other]["coords"] and rng.random() < 0.35:
+                d["foreign_rep"] = other
+    invalid = False
+    if rng.random() < 0.08:
+        i = rng.randrange(nv)
+        dvs[i]["dim"] = "other"
+        invalid = True
+    return {"kind": "M", "fam": fam + ("-invalid-dim" if invalid else ""), "containers": conts, "datavars": dvs,
+            "rewrite": not invalid}
+
+
+def rand_W2(rng, thorough, fam="W2"):
+    gtype = rng.choice(["polygon", "polygon", "line"])
+    ncells = rng.choice([1, 2, 2, 3, 3, 4])
+    lay0 = gen_cells(rng, ncells, rng.choice([1, 2, 3]), rng.choice([2, 3, 4]))
+    nvars = rng.choice([1, 1, 2])
+    with_ring = gtype == "polygon" and rng.random() < 0.6
+    fields = [make_W(rng, lay0, gtype, with_ring, nvars, rng.choice([0, 0, nvars]), fam)]
+    modes = []
+    for _ in range(rng.choice([1, 1, 2])):
+        mode = rng.choice(["cells", "parts", "ring", "same", "independent"])
+        lay = None
+        ring = with_ring
+        if mode in ("cells", "parts"):
+            lay = repartition(rng, lay0, mode)
+        elif mode in ("ring", "same"):
+            lay = [list(c) for c in lay0]
+        if lay is None:
+            mode = "independent"
+            lay = gen_cells(rng, rng.choice([1, 2, 3, 4]), rng.choice([1, 2, 3]), rng.choice([2, 3, 4]))
+        f = make_W(rng, lay, gtype, ring, nvars, rng.choice([0, 0, nvars]), fam)
+        if mode == "same" and fields[0]["rings"] is not None:
+            f["rings"] = [list(r) for r in fields[0]["rings"]]
+            f["ring"] = pad2(f["rings"])
+        if mode == "ring":
+            if gtype == "polygon" and any(len(c) > 1 for c in lay):
+                # same cells, other ring flags (or a ring variable where the first field has none)
+                base = fields[0]["rings"]
+                for _ in range(10):
+                    rings = [[0] + [rng.choice([0, 1]) for _ in c[1:]] for c in lay]
+                    if rings != base:
+                        break
+                f["rings"] = rings
+                f["ring"] = pad2(rings)
+            else:
+                mode = "same"
+        modes.append(mode)
+        fields.append(f)
+    return {"kind": "W2", "fam": fam, "share_axis": rng.random() < 0.8, "fields": fields, "modes": modes}
+
+
+def g_cont(g):
+    return (f"({gopt(g['nc'], g_nats)}, {gopt(g['pnc'], g_nats)}, {gopt(g['ring'], g_zs)}, {gnat(g['nnodes'])}, "
+            f"{glist(g['data'], g_zs)}, {gnat(g['idim'])}, {gnat(100 + g['ndim'])}, {gnat(300 + g['pdim'])})")
+
+
+def readm_literal(c, r):
+    if "driver_exc" in r:
+        return None
+    dvs = []
+    for i, d in enumerate(c["datavars"]):
+        g = c["containers"][d["container"]]
+        own = g["idim"] if g["nc"] is not None else 100 + g["ndim"]
+        dvs.append(f"({gnat(d['container'])}, [{gnat(200 + i) if d.get('dim') == 'other' else gnat(own)}])")
+    if "read_exc" in r:
+        if not r["read_exc"].startswith("ValueError"):
+            return None
+        obs = "None"
+    else:
+        per = []
+        for i, d in enumerate(c["datavars"]):
+            o = r["obs"].get(f"v{i}")
+            if o is None:
+                return None
+            lit = obs_literal(o["coords"], c["containers"][d["container"]]["nvars"])
+            if lit is None:
+                return None
+            per.append(lit)
+        obs = "(Some [" + "; ".join(per) + "])"
+    return f"(([{'; '.join(g_cont(g) for g in c['containers'])}], [{'; '.join(dvs)}], {obs}) : readm_case)"
+
+
+def write2_literal(c, r):
+    if "driver_exc" in r or "write_exc" in r or "raw" not in r:
+        return None
+    dims = {}
+    fs, obs = [], []
+    for k, f in enumerate(c["fields"]):
+        dv = r["raw"]["datavars"].get(f"v{k}")
+        if dv is None:
+            return None
+        gd = dims.setdefault(dv["dims"][0], len(dims))
+        ring = "None" if f["ring"] is None else f"(Some {g_arr2(f['ring'])})"
+        fs.append(f"({glist(f['bounds'], g_arr3)}, {ring}, {gnat(gd)})")
+        t = raw_tuple(r["raw"], dv["container"])
+        if isinstance(t, str):
+            return None
+        nc, pnc, rg, nodes = t
+        if nc is None or not intlist_ok(nc) or not all(intlist_ok(n) for n in nodes):
+            return None
+        if any(x < 0 for x in nc) or (pnc is not None and any(x < 0 for x in pnc)):
+            return None
+        obs.append(f"(Some ({g_nats(nc)}, {gopt(pnc, g_nats)}, {gopt(rg, g_zs)}, {glist(nodes, g_zs)}))")
+    return f"(([{'; '.join(fs)}], [{'; '.join(obs)}]) : write2_case)"
+
+
+def oracle_M(chk, c, r):
+    ok = True
+    invalid = any(d.get("dim") == "other" for d in c["datavars"])
+    if "read_exc" in r:
+        if invalid and r["read_exc"].startswith("ValueError"):
+            return True    # a data variable that is not on the container's cell dimension: refusal
+        chk.fail("property", "read-crash", f"reading a dataset whose data variables share geometry containers failed: "
+                 f"{r['read_exc']}", {"input": strip_m(c), "observed": r["read_exc"]})
+        return False
+    for i, d in enumerate(c["datavars"]):
+        if d.get("dim") == "other":
+            continue
+        g = c["containers"][d["container"]]
+        o = r["obs"].get(f"v{i}")
+        if o is None:
+            chk.fail("property", "read-no-field", f"data variable v{i} was not read as a field",
+                     {"input": strip_m(c), "observed": sorted(r["obs"])})
+            ok = False
+            continue
+        ok = presented_ok(chk, g, o, f"cfdm.read, data variable v{i} (of {len(c['datavars'])}) naming container "
+                          f"{d['container']} (of {len(c['containers'])})", "shared-read", inp=strip_m(c)) and ok
+    if "write_exc" in r:
+        chk.fail("property", "write-crash", f"writing the fields just read failed: {r['write_exc']}",
+                 {"input": strip_m(c), "observed": r["write_exc"]})
+        return False
+    if ok and "raw" in r:
+        for i, d in enumerate(c["datavars"]):
+            g = c["containers"][d["container"]]
+            dv = r["raw"]["datavars"].get(f"v{i}")
+            if dv is None:
+                chk.fail("property", "shared-rewrite-no-geometry", f"v{i} was written without a geometry container",
+                         {"input": strip_m(c), "expected": "a geometry attribute", "observed": r["raw"]["datavars"]})
+                ok = False
+                continue
+            ok = raw_ok(chk, g, r["raw"], f"cfdm.write of the fields read from a shared-container dataset, v{i}",
+                        "shared-rewrite", gname=dv["container"], datavar_dims=dv["dims"], inp=strip_m(c)) and ok
+            o2 = r.get("obs2", {}).get(f"v{i}")
+            if o2 is None:
+                chk.fail("property", "shared-roundtrip-no-field", f"v{i} is missing after write and read",
+                         {"input": strip_m(c), "observed": sorted(r.get("obs2", {}))})
+                ok = False
+            else:
+                ok = presented_ok(chk, g, o2, f"cfdm.read of the rewritten dataset, v{i}", "shared-roundtrip",
+                                  inp=strip_m(c)) and ok
+    return ok
+
+
+def oracle_W2(chk, c, r):
+    ok = True
+    if "write_exc" in r:
+        chk.fail("property", "write-crash", f"writing several geometry fields to one dataset failed: {r['write_exc']}",
+                 {"input": strip_m(c), "observed": r["write_exc"]})
+        return False
+    if "read_exc" in r:
+        chk.fail("property", "read-crash", f"reading back several geometry fields failed: {r['read_exc']}",
+                 {"input": strip_m(c), "observed": r["read_exc"]})
+        return False
+    for k, f in enumerate(c["fields"]):
+        dv = r["raw"]["datavars"].get(f"v{k}")
+        if dv is None:
+            chk.fail("property", "fields-no-geometry", f"field {k} was written without a geometry container",
+                     {"input": strip_m(c), "observed": r["raw"]["datavars"]})
+            ok = False
+            continue
+        ok = raw_ok(chk, f, r["raw"], f"cfdm.write of {len(c['fields'])} fields to one dataset, field {k} "
+                    f"(relation to field 0: {(['first'] + c['modes'])[k]})", "fields-write",
+                    gname=dv["container"], datavar_dims=dv["dims"], inp=strip_m(c)) and ok
+        o = r["obs"].get(f"v{k}")
+        if o is None:
+            chk.fail("property", "fields-roundtrip-no-field", f"field {k} is missing after write and read",
+                     {"input": strip_m(c), "observed": sorted(r["obs"])})
+            ok = False
+        else:
+            ok = presented_ok(chk, f, o, f"cfdm.read of the dataset holding {len(c['fields'])} fields, field {k} "
+                              f"(relation to field 0: {(['first'] + c['modes'])[k]})", "fields-roundtrip",
+                              inp=strip_m(c)) and ok
+    return ok
+
+
+def strip_m(c):
+    out = {k: v for k, v in c.items() if k not in ("containers", "fields")}
+    if "containers" in c:
+        out["containers"] = [{k: v for k, v in g.items() if k not in ("cells", "_reps", "_ncells")} for g in c["containers"]]
+    if "fields" in c:
+        out["fields"] = [{k: v for k, v in f.items() if k != "cells"} for f in c["fields"]]
+    return out
+
+
+def payload_of(c):
+    """what the driver needs (the generator's knowledge of the cells stays here)"""
+    drop = ("cells", "rings", "layout", "fam")
+    out = {k: v for k, v in c.items() if k not in drop + ("containers", "fields", "modes")}
+    if "containers" in c:
+        out["containers"] = [{k: v for k, v in g.items() if k not in drop} for g in c["containers"]]
+    if "fields" in c:
+        out["fields"] = [{k: v for k, v in f.items() if k not in drop} for f in c["fields"]]
+    return out
+
+
+
 CORPUS = [
+    # a single multi-part cell without rings; only the LAST cell multi-part
+    lambda rng: rand_R(rng, False, "corpus-single-cell", [3], {"gtype": "line"}),
+    lambda rng: rand_W(rng, False, "corpus-single-cell", [3]),
+    lambda rng: rand_R(rng, False, "corpus-last-cell-multipart", [1, 1, 1, 2], {"gtype": "line"}),
+    lambda rng: rand_W(rng, False, "corpus-last-cell-multipart", [1, 1, 3]),
     # F14a: four polygons with parts-per-cell [2,1,1,1]
     lambda rng: rand_R(rng, False, "corpus-F14a", [2, 1, 1, 1], {"gtype": "polygon"}),
     lambda rng: rand_R(rng, False, "corpus-F14a", [1, 2, 1, 1], {"gtype": "line"}),
@@ -546,6 +885,10 @@ def small_layouts(maxcells, maxparts):
 
 
 def nontrivial(c):
+    if c["kind"] == "M":
+        return len(c["datavars"]) > 1
+    if c["kind"] == "W2":
+        return len(c["fields"]) > 1
     if c["kind"] == "R":
         if "layout" not in c:
             return True
@@ -573,7 +916,7 @@ def gen_cases(chk):
         cases.append(make_R(rng, lay, gtype, True, True, ring, 1, rng.choice([0, 1]), False, "R-exhaustive"))
         if thorough:
             cases.append(make_W(rng, lay, gtype, ring, 1, 0, "W-exhaustive"))
-    nR = 9000 if thorough else 1500
+    nR = 9000 if thorough else 1300
     valid = [rand_R(rng, thorough) for _ in range(nR)]
     cases += valid
     nM = 3000 if thorough else 500
@@ -587,7 +930,54 @@ def gen_cases(chk):
     nWM = 1500 if thorough else 300
     for _ in range(nWM):
         cases.append(hole_W(rng, rng.choice(ws)))
+    # other file routes for the same containers: the h5netcdf backend, netCDF-3 / classic formats on
+    # both sides (hand-encoded file, file written by cfdm)
+    for c in cases:
+        if c["kind"] == "R" and c.get("rewrite"):
+            u = rng.random()
+            if u < 0.15:
+                c["backend"] = "h5netcdf"
+            elif u < 0.25:
+                c["fmt"] = rng.choice(["NETCDF3_CLASSIC", "NETCDF4_CLASSIC", "NETCDF3_64BIT_OFFSET"])
+            if rng.random() < 0.15:
+                c["wfmt"] = rng.choice(["NETCDF3_CLASSIC", "NETCDF4_CLASSIC", "NETCDF3_64BIT_DATA"])
+            if rng.random() < 0.08 and not c.get("fmt"):
+                c["domain"] = True    # the same container also named by a CF-1.9 domain variable
+    # second pass: data variables sharing containers, containers sharing dimensions, fields sharing a dataset
+    cases += corpus2(rng)
+    cases += [rand_M(rng, thorough) for _ in range(4000 if thorough else 450)]
+    cases += [rand_W2(rng, thorough) for _ in range(3000 if thorough else 350)]
     return cases
+
+
+def corpus2(rng):
+    out = []
+    # seed missed in round 3: several data variables naming ONE container, no representative coordinates
+    for lay in ([[2], [3]], [[1, 2], [3]], [[2], [1, 1], [3]]):
+        g = cont_from_layout(rng, lay, "line", True, any(len(c) > 1 for c in lay), False, 1, 0, 0)
+        g.update({"idim": 0, "ndim": 0, "pdim": 0})
+        out.append({"kind": "M", "fam": "corpus-shared-container", "containers": [g],
+                    "datavars": [{"container": 0}, {"container": 0}, {"container": 0}], "rewrite": True})
+    # two containers on the same node (and part) dimension, divided differently
+    a = cont_from_layout(rng, [[1, 2], [3]], "line", True, True, False, 1, 0, 0)
+    b = cont_from_layout(rng, [[2], [1, 3]], "line", True, True, False, 1, 0, 3)
+    a.update({"idim": 0, "ndim": 0, "pdim": 0})
+    b.update({"idim": 0, "ndim": 0, "pdim": 0})
+    out.append({"kind": "M", "fam": "corpus-shared-node-dimension", "containers": [a, b],
+                "datavars": [{"container": 0}, {"container": 1}], "rewrite": True})
+    # two fields whose node coordinates flatten to the same values, divided differently
+    for lay0, lay1 in (([[3], [3]], [[2], [4]]), ([[1, 2], [3]], [[3], [1, 2]]), ([[2, 2]], [[1, 3]])):
+        f0 = make_W(rng, lay0, "line", False, 1, 0, "corpus-fields")
+        f1 = make_W(rng, lay1, "line", False, 1, 0, "corpus-fields")
+        out.append({"kind": "W2", "fam": "corpus-fields-same-nodes", "share_axis": True, "fields": [f0, f1],
+                    "modes": ["cells"]})
+    f0 = make_W(rng, [[3, 3], [3]], "polygon", True, 1, 0, "corpus-fields")
+    f1 = make_W(rng, [[3, 3], [3]], "polygon", True, 1, 0, "corpus-fields")
+    f0["rings"], f1["rings"] = [[0, 1], [0]], [[0, 0], [0]]
+    f0["ring"], f1["ring"] = pad2(f0["rings"]), pad2(f1["rings"])
+    out.append({"kind": "W2", "fam": "corpus-fields-same-nodes", "share_axis": True, "fields": [f0, f1],
+                "modes": ["ring"]})
+    return out
 
 
 def run_parallel(chk, payloads, timeout=3000):
@@ -630,9 +1020,8 @@ def run_parallel(chk, payloads, timeout=3000):
 
 def drive(chk, cases):
     shards = [cases[i::NW] for i in range(NW)]
-    payloads = [{"dir": chk.scratch, "tag": f"s{w}", "cases": [
-        {k: v for k, v in c.items() if k not in ("cells", "rings", "layout", "fam")} for c in sh]}
-        for w, sh in enumerate(shards)]
+    payloads = [{"dir": chk.scratch, "tag": f"s{w}", "cases": [payload_of(c) for c in sh]}
+                for w, sh in enumerate(shards)]
     res = run_parallel(chk, payloads)
     rows = [None] * len(cases)
     for w, (rc, out, err) in enumerate(res):
@@ -654,14 +1043,37 @@ def oracle(chk, c, r):
     ok = True
     if "driver_exc" in r:
         chk.fail("correspondence", "harness-error", f"driver raised {r['driver_exc']}",
-                 {"correspondence": "drive/c14.py", "input": strip(c), "observed": r})
+                 {"correspondence": "drive/c14.py", "input": strip_m(c), "observed": r})
         return False
+    if c["kind"] == "M":
+        return oracle_M(chk, c, r)
+    if c["kind"] == "W2":
+        return oracle_W2(chk, c, r)
+    if c["kind"] == "R" and c.get("ring_dim") == "foreign":
+        # an interior ring variable that does not span the part dimension cannot be attached to the
+        # parts: the container has to be refused (no geometry constructs), not decoded
+        if "read_exc" in r:
+            return True
+        if r["obs"]["coords"]:
+            chk.fail("property", "read-foreign-ring-accepted",
+                     "a container whose interior ring variable is not on the part dimension was decoded",
+                     {"input": strip(c), "expected": "no geometry constructs", "observed": r["obs"]["coords"]})
+            return False
+        return True
     if c["kind"] == "R" and "cells" in c:
         if "read_exc" in r:
             chk.fail("property", "read-crash", f"reading a valid geometry container failed: {r['read_exc']}",
                      {"input": strip(c), "expected": "the cells", "observed": r["read_exc"]})
             return False
         ok = presented_ok(chk, c, r["obs"], "cfdm.read of a hand-encoded container", "read") and ok
+        if c.get("domain"):
+            if "dom_exc" in r:
+                chk.fail("property", "read-crash", f"cfdm.read(domain=True) failed: {r['dom_exc']}",
+                         {"input": strip(c), "observed": r["dom_exc"]})
+                ok = False
+            else:
+                ok = presented_ok(chk, c, r["dobs"], "cfdm.read(domain=True), domain variable naming the container",
+                                  "domain-read") and ok
         if "write_exc" in r:
             chk.fail("property", "write-crash", f"writing the field just read failed: {r['write_exc']}",
                      {"input": strip(c), "expected": "a dataset", "observed": r["write_exc"]})
@@ -710,10 +1122,11 @@ def run(chk, model_ok):
     ncorr = 0
     unprintable = 0
     if model_ok:
-        for kind, fn, mk in (("R", "check_read", read_literal), ("W", "check_write", write_literal)):
+        for kind, fn, mk in (("R", "check_read", read_literal), ("W", "check_write", write_literal),
+                             ("M", "check_readm", readm_literal), ("W2", "check_write2", write2_literal)):
             lits, idx = [], []
             for n, (c, r) in enumerate(done):
-                if c["kind"] != kind:
+                if c["kind"] != kind or c.get("ring_dim") == "foreign":
                     continue
                 lit = mk(c, r)
                 if lit is None:
@@ -722,7 +1135,7 @@ def run(chk, model_ok):
                         chk.fail("correspondence", "model-vs-impl",
                                  "the implementation's behaviour on this case is outside what the model describes "
                                  "(unexpected exception or presentation)",
-                                 {"correspondence": f"C14.Run.{fn}", "input": strip(c),
+                                 {"correspondence": f"C14.Run.{fn}", "input": strip_m(c),
                                   "observed": {k: v for k, v in r.items() if k in ("read_exc", "write_exc", "build_exc", "obs")}})
                     continue
                 lits.append(lit)
@@ -736,9 +1149,12 @@ def run(chk, model_ok):
                 c, r = done[n]
                 chk.fail("correspondence", "model-vs-impl",
                          "model and implementation disagree on " +
-                         ("the cells presented for a geometry container" if kind == "R" else "the variables written for geometry cells"),
-                         {"correspondence": f"C14.Run.{fn}", "input": strip(c),
-                          "observed": r.get("obs") if kind == "R" else r.get("raw", r.get("write_exc"))})
+                         {"R": "the cells presented for a geometry container",
+                          "W": "the variables written for geometry cells",
+                          "M": "the cells presented to data variables that share geometry containers / dimensions",
+                          "W2": "the variables written for several geometry fields in one dataset"}[kind],
+                         {"correspondence": f"C14.Run.{fn}", "input": strip_m(c),
+                          "observed": r.get("obs") if kind in ("R", "M") else r.get("raw", r.get("write_exc"))})
 
     fam, feats = {}, {}
     for c, r in done:
@@ -758,6 +1174,31 @@ def run(chk, model_ok):
                 keys.append("RM:" + c.get("mkind", "?"))
             if "read_exc" in r:
                 keys.append("R:read-exc:" + r["read_exc"].split(":")[0])
+            for k in ("backend", "fmt", "wfmt"):
+                if c.get(k):
+                    keys.append(f"R:{k}={c[k]}")
+            if c.get("domain"):
+                keys.append("R:domain-variable")
+        elif c["kind"] == "M":
+            gs = c["containers"]
+            per = [sum(1 for d in c["datavars"] if d["container"] == k) for k in range(len(gs))]
+            keys += [f"M:containers={len(gs)}", f"M:datavars={len(c['datavars'])}",
+                     f"M:max-variables-per-container={max(per)}",
+                     "M:shared-container-without-representative-coordinates"
+                     if any(n > 1 and not gs[k].get("coords") for k, n in enumerate(per)) else "M:no-such-sharing"]
+            if len(gs) == 2:
+                keys += ["M:shared-instance-dim" if gs[0]["idim"] == gs[1]["idim"] and gs[0]["nc"] and gs[1]["nc"] else "M:own-instance-dims",
+                         "M:shared-node-dim" if gs[0]["ndim"] == gs[1]["ndim"] else "M:own-node-dims",
+                         "M:shared-part-dim" if (gs[0]["pdim"] == gs[1]["pdim"] and gs[0]["pnc"] and gs[1]["pnc"]) else "M:own-part-dims"]
+            if any(d.get("foreign_rep") is not None for d in c["datavars"]):
+                keys.append("M:coordinate-variable-of-another-container")
+            if any(d.get("dim") == "other" for d in c["datavars"]):
+                keys.append("M:variable-off-the-cell-dimension" + (":refused" if "read_exc" in r else ":read"))
+        elif c["kind"] == "W2":
+            keys += [f"W2:fields={len(c['fields'])}", "W2:shared-axis" if c.get("share_axis") else "W2:own-axes"]
+            keys += ["W2:second-field:" + m for m in c["modes"]]
+            if "raw" in r:
+                keys.append(f"W2:containers-written={len(r['raw']['containers'])}")
         else:
             keys += ["W:" + c["gtype"], "W:ring" if c["ring"] is not None else "W:no-ring",
                      f"W:nvars={len(c['bounds'])}", "W:coords" if c.get("coords") else "W:no-coords"]
@@ -768,13 +1209,17 @@ def run(chk, model_ok):
         for k in keys:
             feats[k] = feats.get(k, 0) + 1
     distinct = {lib.canon([c.get("layout"), c.get("nc"), c.get("pnc"), c.get("ring"), c.get("gtype"), c.get("nvars"),
-                           c.get("bounds"), c.get("coords")]) for c, r in done if nontrivial(c)}
-    samples = [strip(done[k][0]) for k in (0, len(done) // 3, (2 * len(done)) // 3)] if done else []
+                           c.get("bounds"), c.get("coords"),
+                           [[g.get("layout"), g.get("ring"), g.get("idim"), g.get("ndim"), g.get("pdim")] for g in c.get("containers", [])],
+                           c.get("datavars"), [[f.get("layout"), f.get("ring")] for f in c.get("fields", [])]])
+                for c, r in done if nontrivial(c)}
+    samples = [strip_m(done[k][0]) for k in (0, len(done) // 3, len(done) - 1)] if done else []
     chk.coverage.update({
         "evaluations": len(done),
         "distinct_nontrivial": len(distinct),
         "rule": "a case is non-trivial when it has at least two cells and either a multi-part cell or cells with "
-                "different node counts (R), or at least two cells and a part or node dimension larger than one (W); "
+                "different node counts (R), or at least two cells and a part or node dimension larger than one (W), or "
+                "at least two data variables (M) / two fields (W2) in the dataset; "
                 "distinct = distinct canonical (layout, raw variables, type, number of variables, arrays)",
         "samples": samples,
         "traces_validated_against_impl": ncorr,
@@ -784,7 +1229,9 @@ def run(chk, model_ok):
         "features": dict(sorted(feats.items())),
         "exhaustive": False,
         "historical_refutations": "C14/Refuted.v: witnesses against the reader's index loop (F14a) and the writer's "
-                                  "part_node_count (F14b, F14c) as they were at the pinned commit",
+                                  "part_node_count (F14b, F14c) as they were at the pinned commit; against the seeded "
+                                  "early return that forgets the parent, the node-dimension-keyed compression (F14e) "
+                                  "and the sharing of node variables between differently divided fields (F14d)",
     })
     chk.assumptions += [
         "node coordinate values are exactly representable integers stored as float64; count/ring variables are int32",
@@ -801,16 +1248,35 @@ def run(chk, model_ok):
 def replay(chk, path):
     d = json.load(open(path))
     cases = [x["input"] for x in d.get("cases", []) if isinstance(x.get("input"), dict) and "kind" in x["input"]]
+    def rebuild(o):
+        """the generator's cells, from the layout and the values kept in the replay file"""
+        if "layout" not in o or "cells" in o:
+            return
+        if "data" in o:
+            o["cells"] = []
+            for flat in o["data"]:
+                pos, cells = 0, []
+                for cell in o["layout"]:
+                    cc = []
+                    for n in cell:
+                        cc.append(flat[pos:pos + n])
+                        pos += n
+                    cells.append(cc)
+                o["cells"].append(cells)
+        elif "bounds" in o:
+            o["cells"] = [[[[x for x in p if x is not None] for p in cell if any(x is not None for x in p)]
+                           for cell in arr] for arr in o["bounds"]]
+
     for c in cases:
-        if "layout" in c and "cells" not in c:
-            n = c["nvars"] if c["kind"] == "R" else len(c["bounds"])
-            c["cells"] = [values_for(c["layout"], k) for k in range(n)]
+        rebuild(c)
+        for o in c.get("containers", []) + c.get("fields", []):
+            rebuild(o)
     rows = drive(chk, cases)
     bad = 0
     for c, r in zip(cases, rows):
         n0 = len(chk.failures)
         ok = r is not None and oracle(chk, c, r)
-        print(("ok   " if ok else "FAIL ") + json.dumps(strip(c))[:300])
+        print(("ok   " if ok else "FAIL ") + json.dumps(strip_m(c))[:300])
         for f in chk.failures[n0:]:
             print("     ", f.signature, f.what[:300])
         bad += not ok
